@@ -7,7 +7,7 @@ LEAN_MODULE = "HexProps.C02"
 SCOPE = []
 ORACLE_RULE = "C02: see hx/oracles/framework.py (c02_case): random indicator spec (26 kinds + Amorph wrappers) x stream style x timeframe/fill x schedule on the real code"
 ASSUMPTIONS = ["TZ=UTC for this check"]
-PARTIAL = 'proved for every leaf indicator class and for the composite trees VWAP, STDEV, RSI, ATR, KC, STDEVTHRES, BBANDS, Supertrend (C02_trees: closed candles of an earlier snapshot are a prefix of every later snapshot, any timeframe / fill; batch_truncation_trees); MACD, STOCH, HMA, TSI, ADX and indicator-valued inputs: C02_FULL, correspondence + search only'
+PARTIAL = 'proved for all 27 shipped indicator classes (C02_trees over CoveredTreeX: closed candles of an earlier snapshot are a prefix of every later snapshot, any timeframe / fill; batch_truncation_trees) with candle-attribute inputs; indicator-valued inputs and the parameter corners of C01_FULL: C02_FULL, correspondence + search only'
 
 
 def oracle(ctx):
